@@ -25,10 +25,24 @@ REG_IDENTITY = M.IDENTITY_CALLS + [r"Result::<T, E>::(unwrap|expect)$", r"::get_
 ADAPT_IDENTITY = M.IDENTITY_CALLS + [r"Option::<T>::ok_or(_else)?$", r"Result::<T, E>::map_err$", r"export::path::absolute$"]
 
 
-def derives_from_registry(body, local, getter="export::get_export_paths"):
+REGISTRY_TY = r"Mutex<(std::collections::)?(Hash|BTree)Map<(std::path::)?PathBuf,"
+
+
+def is_registry_ty(ty):
+    """the type of the exporter's registry: a Mutex around a map keyed by the path of a file (possibly behind a
+    reference and a OnceLock/LazyLock); found by what it is, not by what the static or its accessor is called"""
+    return re.search(REGISTRY_TY, re.sub(r"std::sync::|std::collections::|std::path::", "", ty or "").replace(" ", "")) is not None
+
+
+def derives_from_registry(body, local, getter=None):
     if local is None:
         return False
-    return any(o["kind"] == "call" and fn_matches(o["t"], re.escape(getter) + "$") for o in origins(body, local, identity=REG_IDENTITY))
+    for o in origins(body, local, identity=REG_IDENTITY):
+        if o["kind"] == "call" and is_registry_ty(o["t"].get("dst_ty")):
+            return True            # the accessor function (whatever its name)
+        if o["kind"] == "const" and (o.get("c") or {}).get("static") and is_registry_ty((o["c"] or {}).get("ty")):
+            return True            # the static itself
+    return False
 
 
 def _loc(body, b):
@@ -72,8 +86,7 @@ def lock_region_rule(crate, prop, fn_path="export::export_and_merge", registry_g
             return r
     # the lock must be the one on the registry
     for reg in regions:
-        org = origins(body, op_local(reg["t"]["args"][0]))
-        if not any(o["kind"] == "call" and fn_matches(o["t"], re.escape(registry_getter) + "$") for o in org):
+        if not derives_from_registry(body, op_local(reg["t"]["args"][0])):
             f, l = _loc(body, reg["lock_block"])
             r.fail(prop, "lock-not-registry " + fn_path, "Mutex::lock receiver does not originate from %s()" % registry_getter, f, l)
     region = set()
@@ -134,7 +147,7 @@ def single_writer_rule(crate, prop, syn=None, writer="export::export_and_merge",
                            "directory creation %s outside %s" % (_short(t), dir_creator), f, l)
                 else:
                     seen_dir += 1
-            elif fn_matches(t, re.escape(registry_getter) + "$"):
+            elif is_registry_ty(t.get("dst_ty")) and (t.get("dst_ty") or "").startswith("&") and body.kind in ("Fn", "AssocFn", "Closure") and not fn_matches(t, r"OnceLock::<T>::get_or_init$", r"LazyLock.*::force$", r"Deref::deref$"):
                 r.inst(fn=body.path, callee=_short(t), kind="registry-access", where="%s:%s" % (f, l))
                 if owner not in writer_parts:
                     r.fail(prop, "registry-access-outside-owner %s" % owner,
@@ -158,9 +171,11 @@ def single_writer_rule(crate, prop, syn=None, writer="export::export_and_merge",
                 c = op_const(o)
                 if c and c.get("static") and c["static"].startswith(crate_prefix(c["static"])):
                     st_name = c["static"]
-                    if st_name == registry_static:
+                    if is_registry_ty(c.get("ty")):
                         r.inst(fn=body.path, kind="static-ref", static=st_name)
-                        if body.path.split("::{closure")[0] != registry_getter:
+                        ownr = body.path.split("::{closure")[0]
+                        is_getter = is_registry_ty(body.local_ty(0)) and body.n <= 6
+                        if not is_getter and ownr not in writer_parts:
                             r.fail(prop, "static-outside-owner %s" % body.path, "%s referenced outside %s" % (registry_static, registry_getter), body.file(), body.line())
                         else:
                             seen_static += 1
@@ -170,16 +185,19 @@ def single_writer_rule(crate, prop, syn=None, writer="export::export_and_merge",
         r.fail(prop, "anchor-missing dir-creator", "no create_dir_all found in %s" % dir_creator)
     if seen_static == 0:
         r.fail(prop, "anchor-missing registry static", "%s is not referenced from %s" % (registry_static, registry_getter))
-    if seen_getter_call == 0:
-        r.fail(prop, "anchor-missing registry getter call", "%s does not call %s" % (writer, registry_getter))
+    if seen_getter_call == 0 and not any(is_registry_ty((op_const(o) or {}).get("ty")) for bx in crate.bodies if bx.path in writer_parts for blk in range(bx.n) for st in bx.stmts(blk)
+                                         if st["k"] == "assign" and st["rv"]["k"] in ("use", "cast") for o in [st["rv"]["op"]] if (op_const(o) or {}).get("static")):
+        r.fail(prop, "anchor-missing registry getter call", "%s neither calls the registry's accessor nor uses the registry static" % writer)
     # inventory of process-wide state (syntax level: every `static` item and thread_local! in the crate)
     if syn is not None:
         for it in syn.items:
             if it["kind"] == "static" and it["file"].startswith("ts-rs/src"):
                 r.inst(kind="static-item", name=it["name"], where="%s:%s" % (it["file"], it["line"]))
-                if it["name"] not in allowed_statics:
+                is_reg = is_registry_ty(it.get("ty"))
+                n_reg = len([x for x in syn.items if x["kind"] == "static" and x["file"].startswith("ts-rs/src") and is_registry_ty(x.get("ty"))])
+                if not (is_reg and n_reg == 1):
                     r.fail(prop, "new-global-state static %s" % it["name"],
-                           "process-wide state `static %s` is not in the reviewed inventory %s: export results must depend only on what was exported" % (it["name"], list(allowed_statics)),
+                           "process-wide state `static %s: %s` is not the exporter's one registry (a Mutex around a map from file path to exported names): export results must depend only on what was exported" % (it["name"], it.get("ty")),
                            it["file"], it["line"])
         for fn in syn.fns:
             if not fn["file"].startswith("ts-rs/src"):
@@ -926,6 +944,24 @@ def path_agreement_rule(crate, prop):
             o2 = origins(cb, e["arg"], through_try=False, identity=ADAPT_IDENTITY)
             if any(o["kind"] == "call" and fn_matches(o["t"], allowed[cb.path]) for o in o2) and cb.dominates(e["cont"], blk):
                 ok = True
+        if not ok:
+            # `match output_path() { Some(p) => export_to(p), None => Err(..) }`: the call sits behind the `Some` arm
+            dom = cb.dominators()
+            for w2 in dom.get(blk, ()):
+                sw = cb.term(w2)
+                if sw["k"] != "switch" or w2 == blk or op_local(sw["discr"]) is None:
+                    continue
+                for b3, i3, d3 in M.def_sites(cb, op_local(sw["discr"])):
+                    if i3 == "term" or d3["rv"]["k"] != "discr":
+                        continue
+                    o3 = origins(cb, d3["rv"]["pl"]["l"], through_try=False, identity=ADAPT_IDENTITY)
+                    if not any(o["kind"] == "call" and fn_matches(o["t"], allowed[cb.path]) for o in o3):
+                        continue
+                    some_t = next((tg for v, tg in sw["targets"] if v == 1), None)
+                    if some_t is None and {v for v, _ in sw["targets"]} == {0}:
+                        some_t = sw["otherwise"]
+                    if some_t is not None and (some_t == blk or cb.dominates(some_t, blk)):
+                        ok = True
         r.inst(fn=cb.path, check="export_to dominated by Some(output_path) success edge", ok=ok)
         if not ok:
             r.fail(prop, "exportability-unchecked %s" % cb.path, "export_to reachable without a successful output_path check (ident()/decl() of non-exportable types panic)", f, l)
@@ -949,7 +985,16 @@ def path_agreement_rule(crate, prop):
             idx = 0 if fn_matches(t, r"fs::File::(create|open)") else 1
             if idx >= len(t["args"]):
                 continue
-            org = origins(w, op_local(t["args"][idx]))
+            org = origins(w, op_local(t["args"][idx]), identity=M.IDENTITY_CALLS + [r"(Vacant|Occupied)Entry::<.*>::key$", r"Entry::<.*>::key$"])
+            # `map.entry(path)`: the entry's key is the second argument
+            for _ in range(3):
+                more = []
+                for o in org:
+                    if o["kind"] == "call" and fn_matches(o["t"], r"(Hash|BTree)Map::<K, V(, S)?(, A)?>::entry$") and len(o["t"]["args"]) > 1 and op_local(o["t"]["args"][1]) is not None:
+                        more += origins(w, op_local(o["t"]["args"][1]))
+                    else:
+                        more.append(o)
+                org = more
             ok = any(o["kind"] == "arg" and o["local"] == 1 for o in org) and not any(o["kind"] == "call" for o in org)
             f, l = _loc(w, b)
             r.inst(fn=w.path, callee=_short(t), where="%s:%s" % (f, l), path_is_parameter=ok)
@@ -968,11 +1013,24 @@ def path_agreement_rule(crate, prop):
     es = crate.body("export::export_to_string")
     if es is not None:
         gi = [(b, t) for b, t in es.calls() if fn_matches(t, r"export::generate_imports$")]
-        gd = [(b, t) for b, t in es.calls() if fn_matches(t, r"export::generate_decl$")]
-        ok = False
+        # the calls through which T::decl() is reached (directly, or inside a helper of the exporter)
+        def reaches_decl(t):
+            if fn_matches(t, r"TS::decl$"):
+                return True
+            for hb in crate.call_targets(es, t, ("TS",)):
+                if not hb.path.startswith("export::"):
+                    continue
+                reach, _ = crate.reachable_bodies([hb.path], no_impls_of=("TS",))
+                if any(fn_matches(t2, r"TS::decl$") for bx in crate.bodies if bx.path in reach and bx.path.startswith("export::") for _, t2 in bx.calls()):
+                    return True
+            return False
+        gd = [(b, t) for b, t in es.calls() if not es.is_cleanup(b) and not fn_matches(t, r"export::generate_imports$") and reaches_decl(t)]
+        if not gd:
+            r.fail(prop, "anchor-missing declaration call in export_to_string", "no call in export_to_string reaches T::decl()", es.file(), es.line())
+        ok = not gd
         for e in try_edges(es):
             if e["arg"] is not None and any(o["kind"] == "call" and fn_matches(o["t"], r"export::generate_imports$") for o in origins(es, e["arg"], through_try=False)):
-                if gd and es.dominates(e["cont"], gd[0][0]):
+                if gd and all(es.dominates(e["cont"], b) for b, _ in gd):
                     ok = True
         r.inst(fn=es.path, check="generate_decl dominated by generate_imports success", ok=ok)
         if not ok:
